@@ -22,6 +22,7 @@ use crate::{
 	error::{Error, ErrorKind::*},
 	function::FuncVal,
 	gc::WithCapacityExt as _,
+	in_description_frame,
 	manifest::{ManifestFormat, ToStringFormat},
 	typed::{BoundedUsize, MAX_SAFE_INTEGER, MIN_SAFE_INTEGER},
 	ObjValue, Result, SupThis, Unbound, WeakSupThis,
@@ -757,8 +758,9 @@ pub fn equals(val_a: &Val, val_b: &Val) -> Result<bool> {
 			if a.len() != b.len() {
 				return Ok(false);
 			}
-			for (a, b) in a.iter().zip(b.iter()) {
-				if !equals(&a?, &b?)? {
+			for (i, (a, b)) in a.iter().zip(b.iter()).enumerate() {
+				let (a, b) = (a?, b?);
+				if !in_description_frame(|| format!("elem <{i}> comparison"), || equals(&a, &b))? {
 					return Ok(false);
 				}
 			}
@@ -780,9 +782,13 @@ pub fn equals(val_a: &Val, val_b: &Val) -> Result<bool> {
 				return Ok(false);
 			}
 			for field in fields {
-				if !equals(
-					&a.get(field.clone())?.expect("field exists"),
-					&b.get(field)?.expect("field exists"),
+				let (a, b) = (
+					a.get(field.clone())?.expect("field exists"),
+					b.get(field.clone())?.expect("field exists"),
+				);
+				if !in_description_frame(
+					|| format!("field <{field}> comparison"),
+					|| equals(&a, &b),
 				)? {
 					return Ok(false);
 				}
